@@ -46,7 +46,12 @@ structure QI where
   treeRoot : Bool        -- label is-root == "true"
   mn       : RL
   mx       : RL
-  ns       : List Nat    -- annotation namespaces of the API object
+  ns       : List Nat    -- annotation namespaces of the API object (parsed)
+  -- representation of the compared fields (quotaFieldsCopy compares the RAW annotation string and the
+  -- Spec maps with reflect.DeepEqual, so two spellings of the same content are "different"):
+  nsShape  : Nat := 0    -- 0 canonical JSON (absent when empty), 1 another spelling of the same list, 2 malformed (parsed as nil)
+  mnNil    : Bool := false   -- Spec.Min is a nil map (only without keys; nil != empty for DeepEqual)
+  mxNil    : Bool := false
 deriving Repr, DecidableEq
 
 structure Topo where
@@ -200,7 +205,7 @@ def validAdd (d : Nat) (s : Topo) (q : QI) (swNeg : Bool) : Topo × Bool :=
 /-- quotaFieldsCopy equality (labels parent / is-parent / tree-id, annotation namespaces, spec). -/
 def sameFields (o q : QI) : Bool :=
   o.parent == q.parent && o.isParent == q.isParent && o.tree == q.tree && o.ns == q.ns &&
-  o.mn == q.mn && o.mx == q.mx
+  o.mn == q.mn && o.mx == q.mx && o.nsShape == q.nsShape && o.mnNil == q.mnNil && o.mxNil == q.mxNil
 
 def replace (info : List QI) (q : QI) : List QI :=
   info.map (fun c => if c.name = q.name then q else c)
@@ -258,5 +263,84 @@ def step (d : Nat) (s : Topo) : Op → Topo × Bool
 def run (d : Nat) (s : Topo) : List Op → Topo
   | [] => s
   | op :: ops => run d (step d s op).1 ops
+
+/-! ### request decoding — the glue in front of the three entry points
+  apis/extension/elastic_quota.go  GetParentQuotaName, IsParentQuota, IsAllowForceUpdate, IsTreeRootQuota,
+                                   GetAnnotationQuotaNamespaces (malformed JSON ⇒ nil)
+  quota_topology_check.go          validateQuotaSelfItem (shared-weight annotation: "" skipped, malformed ⇒ error)
+  pod_check.go                     hasQuotaBoundedPods (label, namespace named like the quota, old annotated namespaces)
+  quota_topology.go                ValidDeleteQuota (pods by label); a failing List is an error return at the same place -/
+
+/-- a boolean label: code 0 = "false", 1 = "true", 2 = label absent, 3 = any other string (e.g. "True").
+    All accessors compare with the literal "true". -/
+def labelTrue (code : Nat) : Bool := code == 1
+
+/-- GetParentQuotaName: code 98 = label absent, 99 = label "", otherwise the named quota.  The empty name
+    means the root, except on the object that is itself named root (its parent stays "" = 99). -/
+def parentOf (name code : Nat) : Nat :=
+  if code = 98 || code = 99 then (if name = 0 then 99 else 0) else code
+
+/-- shared-weight annotation: 0 absent, 1 a negative amount, 2 malformed JSON, 3 non-negative amounts, 4 "" (skipped).
+    Malformed JSON is an error return of validateQuotaSelfItem, like a negative amount. -/
+def swBad (shape : Nat) : Bool := shape == 1 || shape == 2
+
+structure Raw where
+  name : Nat
+  parentCode : Nat
+  isParentCode : Nat
+  tree : Nat
+  forceCode : Nat
+  rootCode : Nat
+  swShape : Nat
+  nsShape : Nat
+  nsList : List Nat
+  mnNil : Bool
+  mxNil : Bool
+  mn : RL
+  mx : RL
+deriving Repr
+
+def noKeys (r : RL) : Bool := r.all (fun o => o.isNone)
+
+/-- NewQuotaInfoFromQuota + the compared representation -/
+def decodeQI (r : Raw) : QI :=
+  { name := r.name, parent := parentOf r.name r.parentCode, isParent := labelTrue r.isParentCode, tree := r.tree,
+    force := labelTrue r.forceCode, treeRoot := labelTrue r.rootCode, mn := r.mn, mx := r.mx,
+    ns := if r.nsShape = 2 then [] else r.nsList,
+    nsShape := r.nsShape, mnNil := r.mnNil && noKeys r.mn, mxNil := r.mxNil && noKeys r.mx }
+
+/-- a pod of the environment: nsKind 0 = some unrelated namespace, 1 = namespace ns<ns>, 2 = the namespace
+    whose name equals quota <ns>'s name; label = quota-name label. -/
+structure Pod where
+  nsKind : Nat
+  ns : Nat
+  label : Option Nat
+deriving Repr
+
+/-- ValidDeleteQuota: pods listed by label.quotaName -/
+def labelPods (pods : List Pod) (name : Nat) : Bool := pods.any (fun p => p.label == some name)
+
+/-- hasQuotaBoundedPods -/
+def hasBoundPods (pods : List Pod) (name : Nat) (oldNs : List Nat) : Bool :=
+  labelPods pods name || pods.any (fun p => p.nsKind == 2 && p.ns == name) ||
+  oldNs.any (fun n => pods.any (fun p => p.nsKind == 1 && p.ns == n))
+
+inductive RawOp where
+  | add (r : Raw)
+  | upd (r : Raw) (listErr : Bool) (pods : List Pod)
+  | del (name : Nat) (listErr : Bool) (pods : List Pod)
+deriving Repr
+
+/-- the old object's namespaces are those of the last accepted object (= the recorded ones). -/
+def decodeOp (s : Topo) : RawOp → Op
+  | .add r => .add (decodeQI r) (swBad r.swShape)
+  | .upd r le pods =>
+    let oldNs := match find s.info r.name with
+      | some o => o.ns
+      | none => []
+    .upd (decodeQI r) (swBad r.swShape) (le || hasBoundPods pods r.name oldNs)
+  | .del n le pods => .del n (le || labelPods pods n)
+
+def stepRaw (d : Nat) (s : Topo) (r : RawOp) : Topo × Bool := step d s (decodeOp s r)
 
 end KoordVerif.C15
